@@ -118,6 +118,12 @@ fn main() {
             }
             if let Some(s) = rep.sample { println!("sample: {}", serde_json::to_string_pretty(&s).unwrap()); }
         }
+        Some("cst") => {
+            let path = std::path::PathBuf::from(&args[2]);
+            let src = std::fs::read_to_string(&path).unwrap();
+            let r = parser::parse(&path, &src);
+            println!("{}", parser::debug_tree(&r.green_node));
+        }
         Some("try") => {
             let path = std::path::PathBuf::from(&args[2]);
             let src = std::fs::read_to_string(&path).unwrap();
